@@ -58,6 +58,20 @@ void Hist::measure(int id, uint64_t& bytes, uint64_t& cnt) const {
   }
   if (bytes > CAP) bytes = CAP;
 }
+uint64_t Hist::occurrences(int target) const {
+  // reverse edges with multiplicity (runs of equal children are counted, not walked one by one)
+  std::map<int, std::vector<std::pair<int, uint64_t>>> parents;
+  for (auto& n : nodes) if (n.alive) { size_t i = 0; while (i < n.kids.size()) { size_t j = i; while (j < n.kids.size() && n.kids[j] == n.kids[i]) j++; parents[n.kids[i]].emplace_back(n.id, (uint64_t)(j - i)); i = j; } }
+  const uint64_t CAP = (uint64_t)1 << 50;
+  std::map<int, uint64_t> memo;
+  std::function<uint64_t(int, int)> occ = [&](int id, int depth) -> uint64_t {
+    auto it = memo.find(id); if (it != memo.end()) return it->second;
+    uint64_t v = nodes[id].ext > 0 ? 1 : 0;
+    if (depth < 5000) for (auto& pm : parents[id]) { uint64_t o = occ(pm.first, depth + 1); v = (o > CAP / (pm.second ? pm.second : 1)) ? CAP : std::min(CAP, v + o * pm.second); }
+    memo[id] = v; return v;
+  };
+  return occ(target, 0);
+}
 MV Hist::to_value(int id) const {
   const HNode& n = nodes[id]; MV v; v.kind = n.kind; v.width = n.width; v.val = n.val; v.definite = n.definite; v.bytes = n.bytes;
   v.kids.reserve(n.kids.size());
@@ -285,6 +299,11 @@ OpResult Hist::run_op(const HOp& op0) {
   // repeated insertion (growth clause for maps and chunked strings): the same op `times` times, each with the full oracle
   if ((op.code == OP_MAP_ADD || op.code == OP_ADD_CHUNK) && (op.d >> 4) != 0) {
     uint64_t times = 1 + (op.d >> 4) % 4000; HOp one = op; one.d &= 15; OpResult last;
+    if (times > 16) {   // repeated growth of a container that other containers already refer to multiplies through them
+      bool shared = false;
+      for (size_t i = 0; i < pool.size() && !shared; i++) { const HNode& n = nodes[pool[i]]; bool cand = op.code == OP_MAP_ADD ? n.kind == MK_MAP : ((n.kind == MK_BSTR || n.kind == MK_TSTR) && !n.definite); if (cand && occurrences(n.id) > 4) shared = true; }
+      if (shared) times = 16;
+    }
     for (uint64_t t = 0; t < times && !failed() && !g_run.foreign_seen; t++) { last = run_op(one); if (!last.executed || last.reported_failure) break; }
     return last;
   }
@@ -387,7 +406,12 @@ OpResult Hist::run_op(const HOp& op0) {
     case OP_PUSH: case OP_PUSH_MANY: case OP_SET: case OP_REPLACE: {
       int ai = pick(M_ARRAY, op.a), xi = pick(M_ANY, op.b); if (ai < 0 || xi < 0) break;
       int arr = pool[ai], x = pool[xi]; if (reaches(x, arr)) break;      // would create a cycle
-      { uint64_t bx = 0, nx = 0, ba = 0, na = 0; measure(x, bx, nx); measure(arr, ba, na); uint64_t times = op.code == OP_PUSH_MANY ? 1 + op.c % 70000 : 1; if (bx * times + ba > TREE_BYTES_MAX || nx * times + na > 200000) break; }
+      { uint64_t bx = 0, nx = 0, ba = 0, na = 0; measure(x, bx, nx); measure(arr, ba, na); uint64_t times = op.code == OP_PUSH_MANY ? 1 + op.c % 70000 : 1;
+        if (bx * times + ba > TREE_BYTES_MAX || nx * times + na > 200000) break;
+        if (times > 8 || bx > 4096) {       // growth of a container multiplies through everything that already refers to it, directly or not
+          uint64_t occ = occurrences(arr);
+          if (occ > 1 && (occ > ((uint64_t)1 << 30) || occ * (bx * times + ba) > 4 * TREE_BYTES_MAX)) { if (op.code == OP_PUSH_MANY && occ * (bx * 16 + ba) <= 4 * TREE_BYTES_MAX) op.c = 15; else break; }
+        } }
       HNode& A = nodes[arr]; size_t size = A.kids.size();
       uint64_t idx = op.code == OP_PUSH || op.code == OP_PUSH_MANY ? size : op.c % (size + 3);
       bool as_push = op.code == OP_PUSH || op.code == OP_PUSH_MANY || (op.code == OP_SET && idx == size);
